@@ -77,4 +77,13 @@ theorem text_SessionData_GetAccessToken_ok : Oidc.Shapes.Text_SessionData_GetAcc
 theorem text_SessionData_GetAuthenticated_ok : Oidc.Shapes.Text_SessionData_GetAuthenticated := by unfold Oidc.Shapes.Text_SessionData_GetAuthenticated; rfl
 
 theorem shape_ServeHTTP_ok : Oidc.Shapes.Shape_ServeHTTP := by unfold Oidc.Shapes.Shape_ServeHTTP; rfl
+
+/-! ## Program text of the helpers these theorems also rest on (constructors, accessors, token endpoint, configuration) -/
+theorem text_TraefikOidc_ExchangeCodeForToken_ok : Oidc.Shapes.Text_TraefikOidc_ExchangeCodeForToken := by unfold Oidc.Shapes.Text_TraefikOidc_ExchangeCodeForToken; rfl
+theorem text_TraefikOidc_exchangeCodeForToken_ok : Oidc.Shapes.Text_TraefikOidc_exchangeCodeForToken := by unfold Oidc.Shapes.Text_TraefikOidc_exchangeCodeForToken; rfl
+theorem text_TraefikOidc_exchangeTokens_ok : Oidc.Shapes.Text_TraefikOidc_exchangeTokens := by unfold Oidc.Shapes.Text_TraefikOidc_exchangeTokens; rfl
+theorem text_SessionData_SetEmail_ok : Oidc.Shapes.Text_SessionData_SetEmail := by unfold Oidc.Shapes.Text_SessionData_SetEmail; rfl
+theorem text_SessionData_GetIncomingPath_ok : Oidc.Shapes.Text_SessionData_GetIncomingPath := by unfold Oidc.Shapes.Text_SessionData_GetIncomingPath; rfl
+theorem text_SessionData_SetIncomingPath_ok : Oidc.Shapes.Text_SessionData_SetIncomingPath := by unfold Oidc.Shapes.Text_SessionData_SetIncomingPath; rfl
+
 end Oidc.Props.C04
